@@ -429,3 +429,15 @@ def run(case: dict) -> tuple[list, list]:
         ret = step(s, op, exc_log)
         outs.append({"ret": ret, "regs": [None if h is None else snap1(h) for h in s.regs], "_sharing": _sharing(s.regs)})
     return outs, exc_log
+
+
+def run_unobserved(case: dict) -> dict:
+    """The same history again on fresh objects WITHOUT reading anything between the operations (no property access, no
+    snapshot): only the state after the last operation is observed.  Reading a histogram must not be what keeps it right
+    (lazily maintained values that a read flushes), so every oracle is evaluated on this final state as well."""
+    s = Store()
+    exc_log: list = []
+    ret = None
+    for op in case["ops"]:
+        ret = step(s, op, exc_log)
+    return {"ret": ret, "regs": [None if h is None else snap1(h) for h in s.regs], "_sharing": _sharing(s.regs)}
